@@ -440,8 +440,8 @@ theorem rename_commutes (c a : Nat) (new : String) (comp : Option Nat) (drv : Bo
       simp only [Schema.mk.injEq]
       constructor
       · rw [List.filter_map, List.map_map, List.map_map]
-        have hpar : ((fun (c_1 : Class) => inScope d.containers comp c_1.parent) ∘ rnG c a new) =
-            (fun (c_1 : Class) => inScope d.containers comp c_1.parent) := by
+        have hpar : ((fun (c_1 : Class) => inScope d.containers d.pkgrefs comp c_1.parent) ∘ rnG c a new) =
+            (fun (c_1 : Class) => inScope d.containers d.pkgrefs comp c_1.parent) := by
           funext k; simp only [Function.comp]; unfold rnG Class.mapAttr; split <;> rfl
         rw [hpar]
         apply List.map_congr_left
@@ -565,9 +565,9 @@ theorem moveClass_commutes (c : Nat) (p : Parent) (comp : Option Nat) (drv : Boo
       rw [funext (mv_groupOf (d := d) (c := c) (p := p))]
     -- the classes, with the scope predicate q that differs from the old one at kc only
     have hclasses : (extract { d with classes := d.classes.map (mvG c p) } comp drv).classes =
-        ((l1.filter (fun k => inScope d.containers comp k.parent)).map (classOf d drv)) ++
-        (if inScope d.containers comp p then [classOf d drv kc] else []) ++
-        ((l2.filter (fun k => inScope d.containers comp k.parent)).map (classOf d drv)) := by
+        ((l1.filter (fun k => inScope d.containers d.pkgrefs comp k.parent)).map (classOf d drv)) ++
+        (if inScope d.containers d.pkgrefs comp p then [classOf d drv kc] else []) ++
+        ((l2.filter (fun k => inScope d.containers d.pkgrefs comp k.parent)).map (classOf d drv)) := by
       unfold extract
       simp only
       rw [List.filter_map, List.map_map]
@@ -575,27 +575,27 @@ theorem moveClass_commutes (c : Nat) (p : Parent) (comp : Option Nat) (drv : Boo
         funext k; exact mv_classOf k
       rw [this, hl]
       simp only [List.filter_append, List.filter_cons, List.map_append]
-      have e1 : l1.filter ((fun (k : Class) => inScope d.containers comp k.parent) ∘ mvG c p) =
-          l1.filter (fun k => inScope d.containers comp k.parent) := by
+      have e1 : l1.filter ((fun (k : Class) => inScope d.containers d.pkgrefs comp k.parent) ∘ mvG c p) =
+          l1.filter (fun k => inScope d.containers d.pkgrefs comp k.parent) := by
         apply filter_congr'
         intro k hk
         have : (k.id == c) = false := by simp [h1 k hk]
         simp [mvG, this]
-      have e2 : l2.filter ((fun (k : Class) => inScope d.containers comp k.parent) ∘ mvG c p) =
-          l2.filter (fun k => inScope d.containers comp k.parent) := by
+      have e2 : l2.filter ((fun (k : Class) => inScope d.containers d.pkgrefs comp k.parent) ∘ mvG c p) =
+          l2.filter (fun k => inScope d.containers d.pkgrefs comp k.parent) := by
         apply filter_congr'
         intro k hk
         have : (k.id == c) = false := by simp [h2 k hk]
         simp [mvG, this]
-      have e3 : ((fun (k : Class) => inScope d.containers comp k.parent) ∘ mvG c p) kc =
-          inScope d.containers comp p := by
+      have e3 : ((fun (k : Class) => inScope d.containers d.pkgrefs comp k.parent) ∘ mvG c p) kc =
+          inScope d.containers d.pkgrefs comp p := by
         simp [mvG, hkc]
       rw [e1, e2, e3]
       split <;> simp
     have hold : (extract d comp drv).classes =
-        ((l1.filter (fun k => inScope d.containers comp k.parent)).map (classOf d drv)) ++
-        (if inScope d.containers comp kc.parent then [classOf d drv kc] else []) ++
-        ((l2.filter (fun k => inScope d.containers comp k.parent)).map (classOf d drv)) := by
+        ((l1.filter (fun k => inScope d.containers d.pkgrefs comp k.parent)).map (classOf d drv)) ++
+        (if inScope d.containers d.pkgrefs comp kc.parent then [classOf d drv kc] else []) ++
+        ((l2.filter (fun k => inScope d.containers d.pkgrefs comp k.parent)).map (classOf d drv)) := by
       unfold extract
       simp only
       conv => lhs; rw [hl]
@@ -611,7 +611,7 @@ theorem moveClass_commutes (c : Nat) (p : Parent) (comp : Option Nat) (drv : Boo
       exact h2 k hk (by rw [wf.kl_inj hm (findClass_mem hc) he, hkc])
     have hschema : ∀ (s s' : Schema), s.classes = s'.classes → s.groups = s'.groups → s = s' := by
       intro s s' a b; cases s; cases s'; simp_all
-    cases hin : inScope d.containers comp kc.parent <;> cases hout : inScope d.containers comp p
+    cases hin : inScope d.containers d.pkgrefs comp kc.parent <;> cases hout : inScope d.containers d.pkgrefs comp p
     · -- out, out
       dsimp only
       apply hschema
@@ -628,8 +628,8 @@ theorem moveClass_commutes (c : Nat) (p : Parent) (comp : Option Nat) (drv : Boo
         rw [hold, hin]
         have htw : d.classes.takeWhile (fun x => x.id != c) = l1 := by
           rw [hl]; exact takeWhile_split (fun (k : Class) => k.id) c l1 l2 kc h1 hkc
-        have hpos : countInScope d.containers comp Class.parent (d.classes.takeWhile (fun x => x.id != c)) =
-            ((l1.filter (fun k => inScope d.containers comp k.parent)).map (classOf d drv)).length := by
+        have hpos : countInScope d.containers d.pkgrefs comp Class.parent (d.classes.takeWhile (fun x => x.id != c)) =
+            ((l1.filter (fun k => inScope d.containers d.pkgrefs comp k.parent)).map (classOf d drv)).length := by
           rw [htw]; unfold countInScope; simp
         rw [hpos]
         simp only [if_true, Bool.false_eq_true, if_false, List.append_nil, List.append_assoc, List.singleton_append]
@@ -644,15 +644,15 @@ theorem moveClass_commutes (c : Nat) (p : Parent) (comp : Option Nat) (drv : Boo
         rw [hold, hin]
         simp only [if_true, Bool.false_eq_true, if_false, List.append_nil, List.filter_append, List.filter_cons,
           List.append_assoc, List.singleton_append]
-        have f1 : ((l1.filter (fun k => inScope d.containers comp k.parent)).map (classOf d drv)).filter
-            (fun s => s.kl != kc.kl) = (l1.filter (fun k => inScope d.containers comp k.parent)).map (classOf d drv) := by
+        have f1 : ((l1.filter (fun k => inScope d.containers d.pkgrefs comp k.parent)).map (classOf d drv)).filter
+            (fun s => s.kl != kc.kl) = (l1.filter (fun k => inScope d.containers d.pkgrefs comp k.parent)).map (classOf d drv) := by
           apply List.filter_eq_self.mpr
           intro s hs
           obtain ⟨k, hk, rfl⟩ := List.mem_map.mp hs
           have := hkl1 k (List.mem_filter.mp hk).1
           simpa [classOf] using this
-        have f2 : ((l2.filter (fun k => inScope d.containers comp k.parent)).map (classOf d drv)).filter
-            (fun s => s.kl != kc.kl) = (l2.filter (fun k => inScope d.containers comp k.parent)).map (classOf d drv) := by
+        have f2 : ((l2.filter (fun k => inScope d.containers d.pkgrefs comp k.parent)).map (classOf d drv)).filter
+            (fun s => s.kl != kc.kl) = (l2.filter (fun k => inScope d.containers d.pkgrefs comp k.parent)).map (classOf d drv) := by
           apply List.filter_eq_self.mpr
           intro s hs
           obtain ⟨k, hk, rfl⟩ := List.mem_map.mp hs
